@@ -1,7 +1,7 @@
 /-
   InvCap is preserved by every operation of a scheduler-level history (C01).
 -/
-import TmVerif.Sched.InvCapPrim
+import TmVerif.Sched.ReachCycle
 
 namespace TmVerif.Sched
 
@@ -165,8 +165,9 @@ theorem addNodeEffects_core {c c' : Cell} {cid tr aff ls fr} (h : addNodeEffects
 @[simp] theorem ensureGroup_apps (c : Cell) (g : Nat) : (ensureGroup c g).apps = c.apps := by
   unfold ensureGroup; split <;> rfl
 
-theorem invCap_reach {c c' : Cell} (hc : InvCap c) (h : Reach c c') : InvCap c' :=
-  h.induct (fun _ _ hc hp => invCap_prim hc hp) hc
+/-- A whole scheduling cycle preserves `InvCap`. -/
+theorem invCap_schedule {c c' : Cell} {qs ch} (hc : InvCap c) (h : schedule c qs ch = .ok c') : InvCap c' :=
+  invCap_reach hc (schedule_reach h)
 
 theorem invCap_detach {c c' : Cell} {sid : Nat} (hc : InvCap c) (h : detachServer c sid = .ok c') : InvCap c' := by
   simp only [detachServer, bind_ok, orAbort_ok, pure_ok] at h
